@@ -27,14 +27,19 @@ Op(r) == CASE r.op = "exists"     -> [op |-> "exists", p |-> r.p]
 GInit == Init /\ hist = <<>>
 GNext == /\ Len(hist) < Depth
          /\ IF Mode = "seq" THEN Mutations \/ Queries \/ IterUpdates
-            ELSE (res.op # "conc" /\ Mutations) \/ (res.op # "conc" /\ Concurrents)
+            ELSE Mutations \/ Concurrents
          /\ hist' = Append(hist, Op(res'))
 GSpec == GInit /\ [][GNext]_<<vars, hist>>
 
-EdgeView == <<mb, bins, res>>
+\* BFS over the slice states only; every transition prints its history (ACTION_CONSTRAINT): one
+\* shortest history per (state, operation) edge
+EdgeView == <<mb, bins>>
 
 Scn == [par |-> [maxbins |-> mb], ops |-> hist]
 EmitAll  == hist # <<>> => PrintT(<<"SCN", ToJson(Scn)>>)
 EmitFull == Len(hist) = Depth => PrintT(<<"SCN", ToJson(Scn)>>)
+ScnNext == [par |-> [maxbins |-> mb], ops |-> hist']
+EmitEdge == PrintT(<<"SCN", ToJson(ScnNext)>>)
+EmitConcEdge == res'.op = "conc" => PrintT(<<"SCN", ToJson(ScnNext)>>)
 EmitConc == res.op = "conc" => PrintT(<<"SCN", ToJson(Scn)>>)
 =============================================================================
